@@ -13,6 +13,10 @@ CLAIMS = {
              note='reals instead of doubles on symbolic data, tolerance scaled by the conditioning sum|w_i||x_i^m|; dims<=3, depth<=6; listed alpha/beta; one affine transform; hand-written moment oracle; exotic and custom-tabulated rules excluded', tech=B),
  'C04': dict(engine='fpsym', text='all routes run in one symbolic execution of the real code (values, coefficients and optionally the evaluation point symbolic); the difference of two routes is a polynomial residual that z3 bounds for all inputs of each path class (cells of local bases are classes)',
              note='reals instead of doubles on symbolic data; dims<=3, depth<=3; five history classes; symbolic x limited to <=40 cells per configuration; Wavelet: coefficient overwrite symbolic, model values concrete; support clause at concrete probe points (all-point version is engine K)', tech=B),
+ 'C07': dict(engine='fpsym', text='operation sequences of the real refinement/load/merge/clear API run with coordinate-tagged symbolic values, symbolic tolerances and scale corrections; value association is decided as symbol identity by z3, set invariants and the classic-criterion oracle are checked on every solver-constructed path class',
+             note='reals instead of doubles; sequences of <= 5 operations enumerated as configurations; dims<=3, depth<=3; budgeted classes; Wavelet with concrete values; classic oracle only for Local Polynomial', tech=B),
+ 'C08': dict(engine='fpsym', text='level-limit vectors are derived from symbolic reals so z3 enumerates (and certifies) all vectors in {-1,0,1,2}^d; on each class the real make/update/refine/candidate calls run, every point must lie within the limits in force, limits must persist, and every call must return within the time bound',
+             note='solver-certified enumeration of a small discrete box (not a for-all over reals); dims 2 (3 once); <= 4 calls; 30 s termination bound; limits introduced later than make are only claimed when not below levels already present', tech=B),
  'C09': dict(engine='fpsym', text='the real loadConstructedPoints is driven with the arrival order and batch cuts of the whole target set derived from symbolic priorities/flags and with symbolic values; z3 enumerates permutation x partition classes and decides value identity and equality with the one-batch surrogate for all values in each class',
              note='reals instead of doubles; targets are full grids with <= 21 points; classes complete only where evidence says so, else budgeted; Wavelet with concrete values; one open known finding (Global/Fourier out-of-order tensors)', tech=B),
  'C15': dict(engine='fpsym', text='bounded symbolic execution of the real SampleDREAM template with symbolic random stream over the closed [0,1], weights, pdf values and domain verdicts; z3 enumerates index-conversion / Metropolis / verdict classes (endpoint draws are constructed), ASan observes memory faults on each class representative, book-keeping identities are decided per class',
